@@ -53,7 +53,7 @@ pub fn run(ctx: &Ctx) -> usize {
   // every day of 1582-09-20 .. 1582-11-10 (day numbers 2299146..2299187 run through the ten dropped dates)
   days.extend(2299146i64..=2299187);
   let secs: [i64; 12] = [0, 1, 59, 60, 3599, 3600, 43199, 43200, 82800, 86340, 86398, 86399];
-  let scale = if ctx.quick() { 5 } else { 25 };
+  let scale = if ctx.quick() { 5 } else { 150 };
   // add
   for round in 0..(2500 * scale) {
     let j = if round % 2 == 0 { *rng.pick(&days) } else { rng.range(JDN_MIN, JDN_MAX) };
